@@ -38,6 +38,8 @@ pub struct Dom {
     pub zero_channels: bool,
     /// "wild" swarm: 3 % of the configurations widen one dimension far beyond the usual range
     pub wild: bool,
+    /// the degenerate (constructor-accepted) filter length 0 at a low rate
+    pub zero_len: bool,
 }
 
 impl Default for Dom {
@@ -59,6 +61,7 @@ impl Default for Dom {
             custom_kernels: false,
             zero_channels: false,
             wild: false,
+            zero_len: false,
         }
     }
 }
@@ -255,6 +258,9 @@ pub fn gen_config(rng: &mut Rng, dom: &Dom) -> Config {
         kernel = Kernel::Custom;
         sinc_len = *rng.pick(&[2usize, 3, 5, 7, 9, 15, 33, 63, 100, 127]);
     }
+    if dom.zero_len && kind.is_sinc() && kernel == Kernel::Auto && rng.chance(0.006) {
+        sinc_len = 0;
+    }
     let (channels, mask) = if dom.zero_channels && rng.chance(0.01) { (0, mask.map(|_| Vec::new())) } else { (channels, mask) };
     let mut cfg = Config {
         kind,
@@ -285,6 +291,10 @@ pub fn gen_config(rng: &mut Rng, dom: &Dom) -> Config {
         }
     }
     sanitize(&mut cfg);
+    let p0 = std::env::var("RSIM_CHUNK0_P").ok().and_then(|s| s.parse::<f64>().ok()).unwrap_or(0.0);
+    if dom.zero_len && p0 > 0.0 && rng.chance(p0) {
+        cfg.chunk = 0;
+    }
     cfg
 }
 
